@@ -539,10 +539,6 @@ func (fx *FuncCtx) specPureCall(env *specEnv, x *ast.CallExpr, name string) (sva
 	return sval{v, sig.Results().At(0).Type()}, true
 }
 
-func (fx *FuncCtx) applyRecSpec(env *specEnv, sp *SpecFunc, x *ast.CallExpr) sval {
-	fx.unsupportedf("recursive spec functions not implemented")
-	return sval{}
-}
 
 // modTarget is one location set of a modifies clause: heap arrays and the
 // reference whose entries may change (all = every reference).
